@@ -247,7 +247,7 @@ func (c *Ctx) axiomOnce(key, a string) {
 	if c.declared["ax:"+key] {
 		return
 	}
-	c.declared["ax:"+key] = true
+	c.markDeclared("ax:"+key)
 	c.axiom(a)
 }
 
